@@ -6,14 +6,15 @@
      never an acceptable answer. The spec side uses neither Model/ nor gen/.
    model side: Model/BitVec.v for the plain bitvector (in the build's mode and select path), Model/RL.v for the
      run-length vector (rebuilt from the content by the same builder calls as in the harness; Check/C09RL.v),
-     Model/IntVec.v and Model/Builders.v for the constructors, Model/WM.v for WaveletMatrix / WMCore (rebuilt from
-     the value list by the model's From<Vec<T>>; Check/C09WM.v). The model of SparseVector is written in another
-     package and is not available here: for those outputs the model side is vacuous. *)
+     Model/Sparse.v for the sparse vector (rebuilt from the content with the low width recorded in CSeqS;
+     Check/C09Sparse.v), Model/IntVec.v and Model/Builders.v for the constructors, Model/WM.v for WaveletMatrix /
+     WMCore (rebuilt from the value list by the model's From<Vec<T>>; Check/C09WM.v). *)
 From Coq Require Import NArith List Bool.
 Require Import SDS.Model.Mach SDS.Model.Bits SDS.Model.Raw SDS.Model.IntVec SDS.Model.BitVec SDS.Model.Builders.
 Require Import SDS.Spec.BitSeq SDS.Spec.BuilderSpec SDS.Check.Common.
 Require SDS.Model.RL SDS.Check.C09RL.     (* qualified: the iterator records have the same names as in BitVec *)
 Require SDS.Model.WM SDS.Check.C09WM.     (* qualified: WaveletMatrix / WMCore rebuilt by Model/WM.v *)
+Require SDS.Model.Sparse SDS.Check.C09Sparse.   (* qualified as well *)
 Import ListNotations.
 Open Scope N_scope.
 
@@ -61,6 +62,8 @@ Inductive ivq :=
 
 Inductive case :=
 | CSeq (path : N) (dbg : bool) (c : content) (qs : list bq)
+(* the same when a SparseVector was built: sw = the low width the crate chose for it (read from its serialization) *)
+| CSeqS (sw : N) (path : N) (dbg : bool) (c : content) (qs : list bq)
 | CWM (path : N) (dbg : bool) (has_wm : bool) (vals : list N) (r_len r_width : N) (qs : list wq)
 | CIV (dbg : bool) (width : N) (vals : list N) (qs : list ivq)
 (* constructors: IOk true = Ok(_), IOk false = Err(_) *)
@@ -360,6 +363,41 @@ Definition model_rl (m : mode) (ct : content) (qs : list bq) : bool :=
                               | QBitNth _ _ _ o => not_made o end) qs
   end.
 
+(* ---- SparseVector: the second observed result, against Model/Sparse.v on the vector rebuilt with the recorded width ---- *)
+Definition ms {A} (eqb : A -> A -> bool) (f : unit -> res A) (o : o3 A) : bool :=
+  match snd (fst o) with None => true | Some i => res_agree eqb (f tt) i end.
+Definition sp_not_made {A} (o : o3 A) : bool := match snd (fst o) with None => true | Some _ => false end.
+
+Definition model_sp_bq (sp : selpath) (m : mode) (v : Sparse.sparse) (q : bq) : bool :=
+  match q with
+  | QCounts o => ms n3_eqb (fun _ => C09Sparse.q_counts v) o
+  | QGet i o => ms Bool.eqb (fun _ => Sparse.sv_get sp m v i) o
+  | QRank i o => ms N.eqb (fun _ => Sparse.sv_rank sp m v i) o
+  | QRank0 i o => ms N.eqb (fun _ => Sparse.sv_rank_zero sp m v i) o
+  | QSel z r o => ms onat_eqb (fun _ => if z then Sparse.sv_select_zero sp m v r else Sparse.sv_select sp m v r) o
+  | QSelIter z r o => ms seli_eqb (fun _ => C09Sparse.q_sel_iter sp m v z r) o
+  | QPred x o => ms onn_eqb (fun _ => C09Sparse.q_pred sp m v x) o
+  | QSucc x o => ms onn_eqb (fun _ => C09Sparse.q_succ sp m v x) o
+  (* ZeroIter is forward only: nth_back / next_back do not exist *)
+  | QNth z back k n o =>
+      if z then (if back then sp_not_made o else ms (nth_eqb nn_eqb) (fun _ => C09Sparse.q_zero_nth m v k n) o)
+      else ms (nth_eqb nn_eqb) (fun _ => C09Sparse.q_one_nth m v back k n) o
+  | QBitNth back k n o => ms (nth_eqb Bool.eqb) (fun _ => C09Sparse.q_bit_nth m v back k n) o
+  end.
+
+(* the SparseVector of a content, as the harness builds it, with low width sw *)
+Definition sp_of_content (sp : selpath) (m : mode) (sw : N) (ct : content) : res Sparse.sparse :=
+  match ct with
+  | Bits len words => C09Sparse.build sp m sw len false (ones (bits_of len words))
+  | Runs len runs => C09Sparse.build sp m sw len false (C09Sparse.positions_of_runs runs)
+  | Multi len vals => C09Sparse.build sp m sw len true vals
+  end.
+Definition model_sp (sp : selpath) (m : mode) (sw : N) (ct : content) (qs : list bq) : bool :=
+  match sp_of_content sp m sw ct with
+  | Ok v => forallb (model_sp_bq sp m v) qs
+  | _ => false
+  end.
+
 Definition model_ivq (v : res intvec) (q : ivq) : bool :=
   match q with
   | IGetOr i d o => res_agree N.eqb (let* x := v in iv_get_or x i d) o
@@ -427,6 +465,18 @@ Definition check (c : case) : N :=
         end && model_rl m ct qs in
       let O := oracle_of ct in
       code m_ok (forallb (spec_bq O) qs)
+  | CSeqS sw path dbg ct qs =>
+      let sp := sp_of path in let m := mode_of dbg in
+      let m_ok :=
+        match ct with
+        | Bits len words =>
+            match bv_enable_all sp m (bv_from_raw (mkraw len words)) with
+            | Ok b => forallb (model_bq sp m b) qs
+            | _ => false
+            end
+        | _ => true
+        end && model_rl m ct qs && model_sp sp m sw ct qs in
+      code m_ok (forallb (spec_bq (oracle_of ct)) qs)
   | CWM path dbg has_wm vals r_len r_width qs =>
       let w := w_width vals in
       code (model_wm (sp_of path) (mode_of dbg) has_wm vals r_len r_width qs)
@@ -465,6 +515,16 @@ Definition explain (c : case) : list (N * bool * bool) :=
           | None => tag (fun _ => true) (spec_bq O) qs 0
           end
       end
+  | CSeqS sw path dbg ct qs =>
+      let sp := sp_of path in let m := mode_of dbg in
+      let f_bv := match ct with
+                  | Bits len words => match bv_enable_all sp m (bv_from_raw (mkraw len words)) with
+                                      | Ok b => model_bq sp m b | _ => fun _ => false end
+                  | _ => fun _ => true
+                  end in
+      let f_rl := match rl_of m ct with Some (Ok v) => model_rl_bq m v | Some _ => fun _ => false | None => fun _ => true end in
+      let f_sp := match sp_of_content sp m sw ct with Ok v => model_sp_bq sp m v | _ => fun _ => false end in
+      tag (fun q => f_bv q && f_rl q && f_sp q) (spec_bq (oracle_of ct)) qs 0
   | CWM path dbg has_wm vals r_len r_width qs =>
       match C09WM.build (sp_of path) (mode_of dbg) has_wm vals with
       | Ok (core, ow) => tag (model_wq (sp_of path) (mode_of dbg) core ow) (spec_wq vals (w_width vals)) qs 0
